@@ -37,6 +37,7 @@ type Gen struct {
 	Count      func(string)
 	MultiRef   bool
 	ForceBoard bool
+	Nested     bool // every declaration is a nested map (no dotted declaration keys)
 }
 
 func (g *Gen) count(s string) {
@@ -103,7 +104,7 @@ func (g *Gen) objs(depth, max int) []*gobj {
 			continue
 		}
 		seen[strings.ToLower(nm)] = true
-		o := &gobj{name: nm, label: g.objLabel(), attrs: g.attrs(objAttrChoices, 2), mapStyle: g.R.Intn(2) == 0}
+		o := &gobj{name: nm, label: g.objLabel(), attrs: g.attrs(objAttrChoices, 2), mapStyle: g.Nested || g.R.Intn(2) == 0}
 		if depth < g.MaxDepth && g.R.Intn(5) < 2 {
 			o.children = g.objs(depth+1, 3)
 		}
